@@ -309,18 +309,18 @@ fn check_labels<G: Cv>(fx: &Value, progs: &[&Program], o: &Opts, start: std::tim
             let (prover, ctx, comms) = build_prover::<G, Transcript>(prog, &env.pc, t, o.seed, Dev::None);
             let mut rng = crate::alphabet::chacha(o.seed, "c18");
             let r = prover.prove(&mut rng, &env.bp).map(|p| p.to_bytes().unwrap());
-            let _ = take_ctx(ctx);
-            (r, comms)
+            let order = take_ctx(ctx).closure_order;
+            (r, comms, order)
         });
-        let (bytes, comms) = match res {
-            Ok((Ok(b), c)) => (b, c),
+        let (bytes, comms, order) = match res {
+            Ok((Ok(b), c, o)) => (b, c, o),
             other => {
                 bad.push((key("fresh honest run"), "proof".into(), format!("{:?}", other.map(|x| x.0.map(|_| ())))));
                 return (0u64, bad);
             }
         };
         let parts = Parts::<G>::parse(&bytes).unwrap();
-        let steps = expected_steps::<G>(prog, &comms, &parts);
+        let steps = crate::schedule::expected_steps_ordered::<G>(prog, &comms, &parts, &order);
         let (_, mev) = main_events(&ev);
         let mut n = 0;
         match run_monitor(&steps, &mev) {
